@@ -235,6 +235,8 @@ pub struct St {
     pub trace_hash: Fnv,
     pub epilogues: BTreeSet<Tid>,
     pub wake_owed: bool,
+    /// Whether `disk:*` points (inside the package loader) are decision points in this run.
+    pub gate_disk_points: bool,
     /// Observable activity of the main thread (hook points, transport reads and writes).
     pub m_progress: u64,
     m_progress_at_release: u64,
@@ -306,6 +308,8 @@ impl St {
                 }
                 Granularity::Coarse => false,
             },
+            // points inside the package loader (between two of its disk accesses)
+            PKind::Named(n) if n.starts_with("disk:") => self.gate_disk_points,
             _ => true,
         }
     }
@@ -509,6 +513,7 @@ impl Core {
                 trace_hash: Fnv::default(),
                 epilogues: BTreeSet::new(),
                 wake_owed: false,
+                gate_disk_points: false,
                 m_progress: 0,
                 m_progress_at_release: u64::MAX,
                 pump_again: false,
